@@ -56,6 +56,27 @@ type Level int
 
 func (l Level) String() string { return "level-" + strconv.Itoa(int(l)) }
 
+// Enumerations and measures over the other numeric kinds and over bool, each
+// with a String method.
+type (
+	ULevel   uint8
+	U64Level uint64
+	FLevel32 float32
+	FLevel64 float64
+	BFlag    bool
+)
+
+func (l ULevel) String() string   { return "ulevel-" + strconv.Itoa(int(l)) }
+func (l U64Level) String() string { return "u64level-" + strconv.FormatUint(uint64(l), 10) }
+func (l FLevel32) String() string { return "f32level" }
+func (l FLevel64) String() string { return "f64level" }
+func (b BFlag) String() string {
+	if b {
+		return "on"
+	}
+	return "off"
+}
+
 // Next is a method of a defined integer type.
 func (l Level) Next(by int) Level { return l + Level(by) }
 
@@ -265,6 +286,16 @@ func Build(v sb.V) interface{} {
 		return time.Duration(int64(v.N))
 	case "named:level":
 		return Level(int(v.N))
+	case "named:ulevel":
+		return ULevel(uint8(v.N))
+	case "named:u64level":
+		return U64Level(uint64(v.N))
+	case "named:flevel32":
+		return FLevel32(float32(v.N))
+	case "named:flevel64":
+		return FLevel64(v.N)
+	case "named:bflag":
+		return BFlag(v.B)
 	case "embednil":
 		return Page{Title: v.S}
 	case "embednil:stringer":
